@@ -26,8 +26,8 @@ ASSUMPTIONS = [
     "which matched pair full_join forms beyond 'every left and right row at least once, never unequal keys' is not pinned (DESIGN 3.1)",
 ]
 BOUND = {
-    "quick": "one key: rows 0..3 a side over {NA,k1,k2} (40x40 pairs) for 9 key kinds x {same-name, renamed} x 5 joins; two keys: rows 0..2 a side over {NA,lo,hi}^2 (91x91 pairs) for 4 kind pairs x 5 joins",
-    "thorough": "one key: rows 0..3 a side over {NA,k1,k2,k3} (85x85 pairs) and rows 0..4 over {NA,k1,k2} (121x121) for 10 key kinds x {same-name, renamed} x 5 joins; two keys: rows 0..2 a side for 8 kind pairs",
+    "quick": "one key: rows 0..3 a side over {NA,k1,k2} (40x40 pairs) for 11 key kinds x {same-name, renamed} x 5 joins; two keys: rows 0..2 a side over {NA,lo,hi}^2 (91x91 pairs) for 4 kind pairs x 5 joins",
+    "thorough": "one key: rows 0..3 a side over {NA,k1,k2,k3} (85x85 pairs) and rows 0..4 over {NA,k1,k2} (121x121) for 12 key kinds x {same-name, renamed} x 5 joins; two keys: rows 0..2 a side for 8 kind pairs",
 }
 TIME_CAP = {"quick": 300, "thorough": 3000}
 
@@ -35,6 +35,8 @@ JOINS = ["left_join", "inner_join", "semi_join", "anti_join", "full_join"]
 KEY_ALPHA = {
     "f8": [None, "1.0", "2.0", "-inf"],
     "f8z": [None, "-0.0", "0.0", "9007199254740992.0"],
+    "f8c": [None, "0.3", "0.30000000000000004", "0.1"],   # 0.1 + 0.2 is not 0.3: keys one ulp apart are different keys
+    "ns": [None, "2020-02-29T23:59:59.999999001", "2020-02-29T23:59:59.999999002", "1969-12-31T23:59:59.999999999"],
     "i8": [0, 1, 2, 9007199254740993],
     "b1": [False, True],
     "str": [None, "a", "A", "e\u0301"],   # 'A' folds to 'a'; 'e'+combining acute is not the letter U+00E9 (no normalisation)
@@ -44,14 +46,14 @@ KEY_ALPHA = {
     "obj": [None, 1, 2, 3],
     "td": [None, "1", "3", "-2"],
 }
-KINDS_Q = ["f8", "i8", "b1", "str", "U", "D", "us", "td", "obj"]
-KINDS_T = ["f8", "f8z", "i8", "b1", "str", "U", "D", "us", "td", "obj"]
+KINDS_Q = ["f8", "f8c", "i8", "b1", "str", "U", "D", "us", "ns", "td", "obj"]
+KINDS_T = ["f8", "f8z", "f8c", "i8", "b1", "str", "U", "D", "us", "ns", "td", "obj"]
 PAIRS_Q = [("f8", "str"), ("str", "D"), ("i8", "f8"), ("D", "obj")]
 PAIRS_T = PAIRS_Q + [("U", "us"), ("b1", "str"), ("f8", "f8"), ("str", "str")]
 
 
 def real_kind(k):
-    return "f8" if k == "f8z" else k
+    return "f8" if k in ("f8z", "f8c") else k
 
 
 def shards(tier):
